@@ -311,12 +311,21 @@ def audit(prop_modules, extra_scan_dirs=()):
 
 
 def load_known_findings():
-    p = os.path.join(VERIF, "known_findings.json")
-    try:
-        with open(p) as f:
-            return json.load(f)
-    except FileNotFoundError:
-        return {"findings": [], "fixed": []}
+    """known_findings.json plus known_findings.d/*.json (one file per property, same format)."""
+    out = {"findings": [], "fixed": []}
+    paths = [os.path.join(VERIF, "known_findings.json")]
+    d = os.path.join(VERIF, "known_findings.d")
+    if os.path.isdir(d):
+        paths += [os.path.join(d, f) for f in sorted(os.listdir(d)) if f.endswith(".json")]
+    for p in paths:
+        try:
+            with open(p) as f:
+                j = json.load(f)
+        except FileNotFoundError:
+            continue
+        out["findings"] += j.get("findings", [])
+        out["fixed"] += j.get("fixed", [])
+    return out
 
 
 class Failure:
@@ -377,6 +386,7 @@ class Check:
     rule = ""
     trusted_base = []
     assumptions = []
+    manifest = None  # dict(category, text, design_ref, note, technique) -> picked up by mkmanifest.py
 
     def translate(self, ctx):
         """regenerate Gen/*.lean; raise BrokenTie when the source can no longer be read"""
